@@ -7,6 +7,7 @@ From Coq Require Import List NArith ZArith Bool Arith.
 Import ListNotations.
 From JR Require Import Json Handle Handle_Proofs Errors Call Call_Proofs.
 From JRGen Require Extracted.
+From JR Require Skeletons.
 Local Open Scope nat_scope.
 
 (* the positional skeletons of the seven functions as they are in /repo now: every index, slice and make expression,
@@ -27,7 +28,7 @@ Theorem c01_source_facts :
   Extracted.skeleton_processResponse =
     ["make([]reflect.Value, fn.nout)"; "out[fn.valOut]"; "out[fn.errOut]"; "reflect.New(errorType).Elem()"; "reflect.New(errorType)"]%string /\
   Extracted.skeleton_processError =
-    ["make([]reflect.Value, fn.nout)"; "out[fn.valOut]"; "reflect.New(fn.ftyp.Out(fn.valOut)).Elem()"; "reflect.New(fn.ftyp.Out(fn.valOut))"; "out[fn.errOut]"; "reflect.New(errorType).Elem()"; "reflect.New(errorType)"; "reflect.ValueOf(&<*ast.CompositeLit>)"]%string /\
+    ["make([]reflect.Value, fn.nout)"; "out[fn.valOut]"; "reflect.New(fn.ftyp.Out(fn.valOut)).Elem()"; "reflect.New(fn.ftyp.Out(fn.valOut))"; "out[fn.errOut]"; "reflect.New(errorType).Elem()"; "reflect.New(errorType)"; "reflect.ValueOf(&ErrClient{err})"]%string /\
   Extracted.skeleton_processFuncOut =
     ["switch n"; "case 0"; "case 1"; "case 2"; "default"; "if funcType.Out(0) == errorType"; "if funcType.Out(1) != errorType"; "funcType.NumOut()"; "funcType.Out(0)"; "funcType.Out(1)"]%string /\
   Extracted.skeleton_param_marshal =
@@ -184,6 +185,13 @@ Example c01_nonvacuous :
   = [OVal (JArr [JNum (bs "7"); JStr (bs "x")]); OErrv None].
 Proof. reflexivity. Qed.
 
+(* the functions this property's model is an abstraction of still have the control / locking / shared-state skeleton the
+   model was written against (Skeletons.v, by hand; Extracted.v, regenerated from /repo) *)
+Theorem c01_code_skeletons :
+  JRGen.Extracted.effects_handle = JR.Skeletons.handle.
+Proof. repeat split; reflexivity. Qed.
+
+Print Assumptions c01_code_skeletons.
 Print Assumptions c01_source_facts.
 Print Assumptions c01_call_transparent.
 Print Assumptions c01_raw_transparent.
